@@ -445,6 +445,21 @@ fn causes_by_repair(input: &str, strict: &qg::UserInputAst) -> Option<(Vec<&'sta
     Some((causes, full))
 }
 
+/// `ast-differs:<class>`, narrowed for the one recorded family of occur differences: a
+/// backslash-escaped blank in the input (the two grammars end the word before it differently,
+/// which changes what the next operator binds to).
+fn ast_differs_symptom(input: &str, strict: &qg::UserInputAst, lenient: &qg::UserInputAst) -> String {
+    let class = ast_diff_class(strict, lenient);
+    let escaped_blank = input
+        .char_indices()
+        .any(|(i, c)| c == '\\' && input[i + 1..].chars().next().map(|n| n.is_whitespace()).unwrap_or(false));
+    if class == "occur" && escaped_blank {
+        "ast-differs:occur:backslash-escaped-blank-in-the-input".to_string()
+    } else {
+        format!("ast-differs:{class}")
+    }
+}
+
 /// grammar-level agreement on one input; returns the violation (signature, detail) if any
 fn grammar_agreement(
     input: &str,
@@ -458,7 +473,7 @@ fn grammar_agreement(
     let symptom = if !lerrs.is_empty() {
         lenient_error_symptom(input, strict, &lerrs[0].message)
     } else {
-        format!("ast-differs:{}", ast_diff_class(strict, lenient))
+        ast_differs_symptom(input, strict, lenient)
     };
     let mut detail = json!({"witness": witness(input), "strict_ast": clip(format!("{strict:?}")),
         "lenient_ast": clip(format!("{lenient:?}")), "symptom": symptom,
@@ -481,7 +496,7 @@ fn grammar_agreement(
             let residual = if !e2.is_empty() {
                 Some(lenient_error_symptom(&full, strict, &e2[0].message))
             } else if &l2 != strict {
-                Some(format!("ast-differs:{}", ast_diff_class(strict, &l2)))
+                Some(ast_differs_symptom(&full, strict, &l2))
             } else {
                 None
             };
